@@ -2,7 +2,8 @@
     generator discovery, and the write set (C18).  Kept apart from C16Proofs.v so that C17 / C18 do not
     fail with C16 when a repair-dependent obligation of C16 breaks. *)
 From Coq Require Import Permutation.
-From RP2V Require Import Base.Prelude Base.Sorting Model.Types Model.Generated Model.MainRun.
+From RP2V Require Import Base.Prelude Base.Sorting Model.Types.
+From RP2V Require Import Model.Generated Model.MainRun.
 Open Scope Z_scope.
 
 (** ---- strings *)
